@@ -438,7 +438,7 @@ Definition run_case_b (l : list Z) : list Z :=
   | _ => [-1]
   end.
 
-Definition run_case (l : list Z) : list Z :=
+Definition run_case_u8 (l : list Z) : list Z :=
   match l with
   | 0 :: r => run_case_str r
   | 1 :: r => run_case_b r
